@@ -1338,6 +1338,42 @@ def run_C15(ctx):
     finish_tie(ctx, broken, dis, found=bool(bad))
 
 
+
+def run_C16(ctx):
+    import tax_oracles as to
+    import scenarios as sc
+    broken = check_obligations(ctx, PROPS['C16']['theorems'])
+    runs = []
+    for k in range(ctx.n(36, 500)):
+        year = (2021, 2022, 2023)[k % 3]
+        sd = f'{ctx.seed}/c16/{k}'
+        pol, kind = sc.gen_policy(sd, year, kind=['rich', 'itemize', 'plain', 'deps', 'rich', 'hsa'][(k // 3) % 6])
+        # make copies of payer forms likely: 2-3 of some kinds
+        for f in ('w-2', '1099-int', '1099-div', '1099-r', '1098'):
+            if sc.h01(sd, f, 'copies') < 0.45:
+                pol.fixed[f'1040.number_{f}'] = str(2 + int(sc.h01(sd, f, 'n') * 2))
+        r = sc.run(year, ['1040'] if k % 5 else ['1040', 'nc_d-400'], pol)
+        r['kind'], r['scenario_seed'] = kind, sd
+        runs.append(r)
+    dis = tie_real(ctx, runs)
+    dis += [{'diff': str(d)[:400]} for d in tie_f64_cents(ctx, ctx.n(15000, 200000))]
+    bad, pairs, solved = [], 0, 0
+    for i, r in enumerate(runs):
+        if r['exception'] is None and r['ok']:
+            solved += 1
+            probs, n = to.oracle_c16(r, random.Random(f'{ctx.seed}/c16o/{i}'), ctx.n(2, 6))
+            pairs += n
+            for key, msg, extra in probs:
+                bad.append((key, msg, dict(scenario_replay(r), transformation=extra)))
+    ctx.statement['c16-metamorphic'] = {
+        'checked': pairs, 'base_returns': solved, 'violations': len(bad), 'distinct_nontrivial': pairs,
+        'rule': 'for every solved base return: every permutation (budgeted) of the instance numbers of each payer form present 2-3 times (all lines equal, Schedule B listing rows as a multiset); sampled increments of W-2 wages (total tax must not fall), of W-2 withholding (refund-minus-owed moves by exactly the increment, in cents) and of deductible expenses (total tax must not rise); only pairs in which both returns solve are compared; one case = one compared pair',
+        'samples': [{'year': r['year'], 'kind': r.get('kind'), 'copies': {f: to.count_of(sc_inputs(r), f) for f in to.PAYER_FORMS}} for r in runs[:2]]}
+    for key, msg, rep in bad:
+        ctx.report('response:' + key, msg, {'kind': 'scenario', 'case': rep})
+    finish_tie(ctx, broken, dis, found=bool(bad))
+
+
 PROPS = {
     'C01': dict(run=run_C01, theorems=[
         'HabuVerif.C01.solved_sound', 'HabuVerif.C01.failed_complete',
@@ -1390,6 +1426,10 @@ PROPS = {
         'solved_return_balances', 'stored_money_is_cent_valued', 'over_owed', 'refund_split']],
         assumptions=['PARTIAL: proved for the federal balance lines (1040 lines 34, 35a, 36, 37) in exact cents, amounts up to 1e13 cents; the NC balance and the non-negativity of the other lines are checked on explored returns only (no verified sign analysis yet)',
                      'CatWF of the translated catalogue is a hypothesis of solved_return_balances (names are form.line)']),
+    'C16': dict(run=run_C16, theorems=['HabuVerif.C16.' + t for t in [
+        'shapes_2021', 'shapes_2022', 'shapes_2023', 'withholding_total', 'renumbering_keeps_withholding',
+        'net_is_payments_minus_tax', 'solved_net_is_payments_minus_tax', 'withholding_one_for_one']],
+        assumptions=['PARTIAL: proved in exact cents for Form 1040 line 25a (sum over the W-2 copies: a function of the multiset of amounts, at most 64 copies of at most 1e9 dollars) and for refund-minus-owed = 25a+25b+25c+26+32-24 in every returned state (amounts up to 1e10 dollars); that lines 24, 25b, 25c, 26, 32 do not depend on W-2 box 2, the renumbering invariance of the other per-payer totals, and the monotonicity of total tax in wages and deductions are explored by the metamorphic oracle on real returns, not proved']),
     'C17': dict(run=run_C17, theorems=['HabuVerif.C17.' + t for t in [
         'names_unique', 'threshold_lookup_total', 'all_threshold_lookups_total', 'names_clean',
         'every_class_instantiates', 'declared_year_is_directory_year', 'metadata_present']],
